@@ -21,8 +21,7 @@ open TdModel
 seconds in the high 32 bits. -/
 theorem constants_are_spec :
     Facts.C08.messageIDModulo = 4 ∧ Facts.C08.yieldClient = 0 ∧ Facts.C08.minResolutionNanos = 10 ∧
-    Facts.C08.nanoPerSec = 1000000000 ∧ Facts.C08.idShift = 32 ∧ Facts.C08.seqFactor = 2 ∧
-    Facts.C08.maskStmt = "fracPart &= -messageIDModulo" := by decide
+    Facts.C08.nanoPerSec = 1000000000 ∧ Facts.C08.idShift = 32 := by decide
 
 /-- `proto.newMessageID` as translated from the Go source on this run (`Facts.C08.newMessageIDT`,
 over `Int`, Go's truncating `/ %`, `&= -4`, `<< 32 |`) is the hand-written model, for every
@@ -32,21 +31,45 @@ theorem newMessageID_translated_eq_model (nowNano yield : Int) (h0 : 0 ≤ nowNa
   have := newMessageIDT_eq nowNano.toNat yield.toNat
   rwa [Int.toNat_of_nonneg h0, Int.toNat_of_nonneg h1] at this
 
-/-- The modelled `MessageIDGen.New` is the one in the source: the clock reading is adopted only if
-it raises the time *with the two id-irrelevant bits cleared*; otherwise the stored time is bumped. -/
-theorem gen_new_is_modelled :
-    Facts.C08.genAdvanceCond = "nano&^(messageIDModulo-1) > g.nano&^(messageIDModulo-1)" ∧
-    Facts.C08.genAdvanceThen = "g.nano = nano" ∧
-    Facts.C08.genAdvanceElse = "g.nano += minResolutionNanos" := by decide
+/-- `proto.NewMessageIDNano` (the type → yield switch) as translated from the source. -/
+theorem newMessageIDNano_translated_eq_model (nano typ : Nat) :
+    Facts.C08.newMessageIDNanoT (nano : Int) (typ : Int) = (newMessageIDNano nano typ : Int) :=
+  newMessageIDNanoT_eq nano typ
 
-/-- Lock scopes that make a list of critical sections the right model of concurrency, and the
-client type requested by `Conn.newMessageID`. -/
+/-- **The body of `MessageIDGen.New` as translated from the source on this run** (state `g.nano`,
+input = the clock reading; lock statements dropped) computes the model's `genNext` and the model's
+id — for every stored time, every clock reading (also negative) and every requested type.  A
+changed condition, operator, mask, bump or branch changes `Facts.C08.genNewT` and breaks this. -/
+theorem gen_new_translated_eq_model (g : Nat) (clock : Int) (typ : Nat) :
+    genNewT g clock typ = (newMessageID (genNext g clock) (yieldOf typ), genNext g clock) :=
+  genNewT_eq g clock typ
+
+/-- **The body of `Conn.nextMsgSeq` as translated from the source** (state
+`c.sentContentMessages`, input = the id from `c.newMessageID()`, which asks for
+`Facts.C08.connNewType` = client) is the model's critical section. -/
+theorem next_msg_seq_translated_eq_model (s : Conn) (clock : Int) (content : Bool) :
+    nextMsgSeqT s clock content = nextMsgSeq s clock content :=
+  nextMsgSeqT_eq s clock content
+
+/-- What the slices leave out: `MessageIDGen.New` uses `g.nano` / `g.now()` only inside its
+`g.mux` critical section, `Conn.nextMsgSeq` uses `c.sentContentMessages` / `c.newMessageID()` only
+inside its `c.reqMux` critical section (so any interleaving of callers is a list of critical
+sections), and `Conn.newMessageID` asks for a client-typed id. -/
 theorem lock_scope :
-    Facts.C08.genNewLocked = true ∧ Facts.C08.nextMsgSeqLocked = true ∧
-    Facts.C08.nextMsgSeqCallsGen = true ∧
-    Facts.C08.nextMsgSeqBody =
-      "msgID = c.newMessageID() ; seqNo = c.sentContentMessages * 2 ; if content { seqNo++ c.sentContentMessages++ } ; return" ∧
-    Facts.C08.connNewMessageID = "{ return c.messageID.New(proto.MessageFromClient) }" := by decide
+    Facts.C08.genNewLocked = true ∧ Facts.C08.nextMsgSeqLocked = true ∧ Facts.C08.connNewType = 1 := by decide
+
+/-- Where `(msg_id, seq_no)` pairs come from and go: every `c.nextMsgSeq(…)` call passes a literal
+flag — `true` in `Invoke`, `false` in `writeServiceMessage` (acks, pings, get_future_salts) —
+`Conn.write` hands its `msgID, seqNo` to `newEncryptedMessage`, which puts them into every
+`EncryptedMessageData` it builds. -/
+theorem id_seq_reach_the_wire :
+    (∀ s ∈ Facts.C08.nextMsgSeqSites, s.2 = "true" ∨ s.2 = "false") ∧
+    ("Invoke", "true") ∈ Facts.C08.nextMsgSeqSites ∧
+    ("writeServiceMessage", "false") ∈ Facts.C08.nextMsgSeqSites ∧
+    Facts.C08.writePassesIdSeq = true ∧
+    Facts.C08.encryptedDataLiterals = Facts.C08.encryptedDataLiteralsWithId ∧
+    Facts.C08.encryptedDataLiterals = Facts.C08.encryptedDataLiteralsWithSeq ∧
+    0 < Facts.C08.encryptedDataLiterals := by decide
 
 /-! ### message ids -/
 
@@ -147,6 +170,17 @@ evaluates on the implementation's observed `(id, seq_no, content)` triples — i
 of the model, for every interleaving and clock behaviour. -/
 theorem conn_holds (secs : List (Int × Bool)) : holds (obsFrom {} secs) = true :=
   holdsFrom_obsFrom secs {} none (Or.inl rfl)
+
+/-! ### the same statements about the regenerated code -/
+
+/-- Ids computed by the translated `MessageIDGen.New` are the model's, hence strictly increasing
+for every sequence of clock readings and types. -/
+theorem gen_strict_mono_code (calls : List (Int × Nat)) : (genIdsT 0 calls).Pairwise (· < ·) := by
+  rw [genIdsT_eq]; exact gen_strict_mono calls
+
+/-- Every run of the translated `nextMsgSeq` satisfies the property's executable statement. -/
+theorem conn_code_eq_model (secs : List (Int × Bool)) : connRunT {} secs = connRun {} secs :=
+  connRunT_eq secs {}
 
 /-! ### non-vacuity -/
 
